@@ -211,3 +211,126 @@ pub fn insertion_orders(report: &Report, tier: Tier) {
     report.set_extra("insertion_order_builds", json!(n));
     report.set_extra("insertion_order_max_keys", json!(max));
 }
+
+/// Long stems: keys sharing a prefix of 30 .. 130 bytes (stems of 60 .. 260 nibbles: across the 6-bit
+/// short-stem form, the one- and two-byte length forms and every bit of the length that shares the tag
+/// byte with the has-value flag), with and without a value at the branch point, at the root and below it.
+/// Each state is built, hashed against the reference construction, and sent through every persistence
+/// path (store + load from the reference, serialise + deserialise, migrate, thaw + modify + freeze on the
+/// loaded state); contents, point lookups and hash must survive each.
+pub fn long_stems(report: &Report, tier: Tier) {
+    let lens: Vec<usize> = if tier == Tier::Quick {
+        vec![30, 31, 32, 33, 34, 47, 48, 62, 63, 64, 65, 95, 96, 97, 126, 127, 128, 129, 130]
+    } else {
+        (28..=132).collect()
+    };
+    let mut cases: Vec<(String, Map)> = vec![];
+    for &l in &lens {
+        let prefix: Vec<u8> = (0..l).map(|i| (i as u8).wrapping_mul(29).wrapping_add(3)).collect();
+        for below_root in [false, true] {
+            for branch_value in [false, true] {
+                for odd in [false, true] {
+                    let mut m = Map::new();
+                    let base: Vec<u8> = if below_root { [&[0x0Au8][..], &prefix[..]].concat() } else { prefix.clone() };
+                    if below_root {
+                        m.insert(vec![0xF0], vec![1]);
+                    }
+                    // two keys that part after the shared prefix: at a byte boundary, or in the middle of a byte
+                    let (a, b) = if odd { (0x50u8, 0x5Fu8) } else { (0x00u8, 0x10u8) };
+                    m.insert([&base[..], &[a]].concat(), vec![2; 3]);
+                    m.insert([&base[..], &[b, 0x77]].concat(), vec![3; 70]);
+                    if branch_value && !odd {
+                        m.insert(base.clone(), vec![4]);
+                    }
+                    cases.push((format!("shared prefix {l} bytes, below_root={below_root}, value at the branch={branch_value}, parts inside a byte={odd}"), m));
+                }
+            }
+        }
+    }
+    let n = cases.len() as u64;
+    cases.par_iter().for_each(|(name, map)| {
+        let wit = json!({"long_stems": name});
+        let contents: Vec<(Key, Val)> = map.iter().map(|(k, v)| (k.clone(), v.clone())).collect();
+        let want = ref_hash(map);
+        let r = mc_core::catch(|| -> Result<(), String> {
+            let empty: Vec<u8> = vec![];
+            let verify = |p: &PersistentState, store: &[u8], what: &str| -> Result<(), String> {
+                if hash_of(p, store) != want {
+                    return Err(format!("{what}: hash differs from the reference construction"));
+                }
+                let got: Vec<(Key, Val)> = p.clone().into_iterator(&mut Loader::new(store)).collect();
+                if got != contents {
+                    return Err(format!("{what}: contents differ ({} entries instead of {})", got.len(), contents.len()));
+                }
+                for (k, v) in &contents {
+                    if p.lookup(&mut Loader::new(store), k).as_ref() != Some(v) {
+                        return Err(format!("{what}: lookup of {} differs", mc_core::hex(k)));
+                    }
+                }
+                Ok(())
+            };
+            let mut fresh = build(map);
+            verify(&fresh, &empty, "freshly built")?;
+            // built by insertion in reverse order as well
+            {
+                let mut l = Loader::new(&empty[..]);
+                let mut ms = PersistentState::Empty.thaw();
+                {
+                    let inner = ms.get_inner(&mut l);
+                    let mut t = inner.lock();
+                    for (k, v) in contents.iter().rev() {
+                        t.insert(&mut l, k, v.clone()).map_err(|_| "insert refused".to_string())?;
+                    }
+                }
+                let p = ms.freeze(&mut l, &mut EmptyCollector);
+                verify(&p, &empty, "built by insertion")?;
+            }
+            let mut ser = vec![];
+            fresh.serialize(&mut Loader::new(&empty[..]), &mut ser).map_err(|e| format!("serialize: {e:#}"))?;
+            let de = PersistentState::deserialize(&mut std::io::Cursor::new(&ser)).map_err(|e| format!("own serialisation does not deserialise: {e:#}"))?;
+            verify(&de, &empty, "deserialised")?;
+            let mut store: Vec<u8> = vec![];
+            let reference = fresh.store_update(&mut store).map_err(|e| format!("store_update: {e:?}"))?;
+            let mut loaded = PersistentState::load_from_location(&mut Loader::new(&store[..]), reference).map_err(|e| format!("own store does not load: {e:?}"))?;
+            verify(&loaded, &store, "stored and loaded")?;
+            let mut new_store: Vec<u8> = vec![];
+            let migrated = loaded.migrate(&mut new_store, &mut Loader::new(&store[..])).map_err(|e| format!("migrate: {e:?}"))?;
+            verify(&migrated, &new_store, "migrated")?;
+            // the loaded state can be modified and refrozen: a key that parts half way along the long stem
+            let mut l = Loader::new(&store[..]);
+            let mut ms: MutableState = loaded.thaw();
+            let longest = contents.iter().map(|(k, _)| k.clone()).max_by_key(|k| k.len()).unwrap();
+            let mut half = longest[..longest.len() / 2].to_vec();
+            half.push(0xEE);
+            {
+                let inner = ms.get_inner(&mut l);
+                let mut t = inner.lock();
+                t.insert(&mut l, &half, vec![9]).map_err(|_| "insert refused".to_string())?;
+            }
+            let mut with = ms.freeze(&mut l, &mut EmptyCollector);
+            let mut bigger = map.clone();
+            bigger.insert(half.clone(), vec![9]);
+            if hash_of(&with, &store) != ref_hash(&bigger) {
+                return Err("loaded + one insertion half way along the stem: hash differs from the reference".into());
+            }
+            let mut store2 = store.clone();
+            let r2 = with.store_update(&mut store2).map_err(|e| format!("store_update: {e:?}"))?;
+            let again = PersistentState::load_from_location(&mut Loader::new(&store2[..]), r2).map_err(|e| format!("modified store does not load: {e:?}"))?;
+            let got: Vec<(Key, Val)> = again.into_iterator(&mut Loader::new(&store2[..])).collect();
+            if got != bigger.iter().map(|(k, v)| (k.clone(), v.clone())).collect::<Vec<_>>() {
+                return Err("loaded + insertion, stored and loaded again: contents differ".into());
+            }
+            Ok(())
+        });
+        match r {
+            Ok(Ok(())) => {}
+            Ok(Err(e)) => report.violation("long-stem-persistence", wit, json!({"error": e})),
+            Err(p) => report.violation("panic", wit, json!({"panic": p})),
+        }
+    });
+    report.eval(n);
+    report.transition(n * 6);
+    report.trace(n * 6);
+    report.nontrivial(n);
+    report.set_extra("long_stem_states", json!(n));
+}
